@@ -23,7 +23,7 @@ ASSUMPTIONS = [
     "GeneratedCodeOrigin is a code origin for the purpose of '+' (it subclasses CodeOrigin)",
     "points with equal index but different line/column are compared like any others: by index only",
 ]
-MUST_SEE = ["algebra_after_source_registry_was_cleared", "ranges_past_end_of_text", "concat_of_many_operands", "get_raw_after_file_appeared", "grid_pairs", "grid_triples", "illformed_rejected", "hull_merges", "multi_results", "multi_operands", "sourceset_results", "get_raw_checked", "nested_range_pairs", "equal_but_distinct_sources", "same_index_other_linecol"]
+MUST_SEE = ["textless_twin_sources_created_first", "algebra_after_source_registry_was_cleared", "ranges_past_end_of_text", "concat_of_many_operands", "get_raw_after_file_appeared", "grid_pairs", "grid_triples", "illformed_rejected", "hull_merges", "multi_results", "multi_operands", "sourceset_results", "get_raw_checked", "nested_range_pairs", "equal_but_distinct_sources", "same_index_other_linecol"]
 CONFIG = {
     "quick": {"shards": 16, "tuples": 15000, "watchdog_s": 300},
     "thorough": {"shards": 32, "tuples": 40000, "watchdog_s": 3000},
@@ -309,6 +309,16 @@ def single_pool():
 def origin_checks(ctx):
     from pyoak.origin import NO_ORIGIN, CodeOrigin, concat_origins, merge_origins
 
+    if ctx.shard % 4 == 3 and not O._SRC_CACHE:
+        # equal but text-less twins of the sources exist before the sources that carry the text (source records loaded from a
+        # dump, the documents parsed again afterwards): origins work with the source they were given
+        from pyoak.origin import MemoryTextSource, TextSource
+
+        for i in range(3):
+            MemoryTextSource(source_uri=f"mem://verif/{i}")
+        for i, (_c, uri, typ) in O.SOURCE_DESCR.items():
+            TextSource(uri, typ)
+        ctx.count("textless_twin_sources_created_first")
     singles = single_pool()
     built = {sp: O.build_origin(sp) for sp in singles}
     if ctx.shard % 4 == 1:
